@@ -146,9 +146,11 @@ func (h *cfg) readObjectHeaders(dst *headerSource) error {
 				}
 				in := v.Init
 				splitHeader := in.Header.GetSplit()
-				if splitHeader == nil || splitHeader.SplitId != nil {
-					// V1 split scheme or small object, only the received
-					// object's header can be checked
+				if splitHeader == nil || splitHeader.SplitId != nil ||
+					splitHeader.GetParentHeader() == nil && splitHeader.GetFirst() == nil {
+					// V1 split scheme, small object or a split header which refers to
+					// no original object's header: only the received object's header
+					// can be checked (and it must be, whatever else the header has)
 					mo := &protoobject.Object{
 						ObjectId: in.ObjectId,
 						Header:   in.Header,
@@ -181,29 +183,25 @@ func (h *cfg) readObjectHeaders(dst *headerSource) error {
 					}
 					dst.objectHeaders = headersFromObject(&obj, h.cnr, h.obj)
 				} else {
-					// middle object, parent header should
-					// be received via the first object
-					if mf := in.Header.GetSplit().GetFirst(); mf != nil {
-						var firstID oid.ID
+					// middle object, parent header should be received
+					// via the first object (it is set, see above)
+					var firstID oid.ID
 
-						err := firstID.FromProtoMessage(mf)
-						if err != nil {
-							return fmt.Errorf("converting first object ID: %w", err)
-						}
-
-						var addr oid.Address
-						addr.SetObject(firstID)
-						addr.SetContainer(h.cnr)
-
-						firstObject, err := h.headerSource.Head(h.ctx, addr)
-						if err != nil {
-							return fmt.Errorf("fetching first object header: %w", err)
-						}
-
-						dst.objectHeaders = headersFromObject(firstObject.Parent(), h.cnr, h.obj)
+					err := firstID.FromProtoMessage(splitHeader.GetFirst())
+					if err != nil {
+						return fmt.Errorf("converting first object ID: %w", err)
 					}
 
-					// first object not defined, unexpected, do not attach any header
+					var addr oid.Address
+					addr.SetObject(firstID)
+					addr.SetContainer(h.cnr)
+
+					firstObject, err := h.headerSource.Head(h.ctx, addr)
+					if err != nil {
+						return fmt.Errorf("fetching first object header: %w", err)
+					}
+
+					dst.objectHeaders = headersFromObject(firstObject.Parent(), h.cnr, h.obj)
 				}
 			}
 		}
